@@ -114,6 +114,9 @@ func (b *builder) modfileFor(repo, name string) (string, error) {
 	return mf, os.WriteFile(strings.TrimSuffix(mf, ".mod")+".sum", sum, 0o644)
 }
 
+// isAuto: the flavours built from the auto-instrumented scratch copy of the repository.
+func isAuto(f string) bool { return f == "auto" || f == "autorace" }
+
 func flavourFlags(f string) []string {
 	switch f {
 	case "plain":
@@ -124,6 +127,8 @@ func flavourFlags(f string) []string {
 		return []string{"-tags", "verif,purego"}
 	case "auto":
 		return []string{"-tags", "verif,verifauto"}
+	case "autorace":
+		return []string{"-tags", "verif,verifauto", "-race"}
 	case "racepurego":
 		return []string{"-tags", "verif,purego", "-race"}
 	case "386":
@@ -140,7 +145,7 @@ func (b *builder) binary(flavour string) (string, error) {
 		return p, nil
 	}
 	mf, err := b.modfile()
-	if flavour == "auto" {
+	if isAuto(flavour) {
 		var ar string
 		if ar, err = b.autoRepo(); err == nil {
 			mf, err = b.modfileFor(ar, "auto.mod")
